@@ -85,6 +85,11 @@ func cmdVerify(args []string) {
 			fmt.Printf("  OUTSIDE SUBSET: %s", res.OutsideSubset)
 		}
 		fmt.Println()
+		if *verbose && res.Ctx != nil {
+			for _, k := range sortedKeys(res.Ctx.notes) {
+				fmt.Println("  note:", k)
+			}
+		}
 		for _, o := range res.Obligations {
 			mark := "ok  "
 			if !o.ok() {
